@@ -74,6 +74,7 @@ type JWSInfo struct {
 	Header    map[string]any
 	Claims    map[string]any
 	MACOK     bool // HS256 MAC over the received seg0.seg1 verifies under key
+	MACCanon  bool // HS256 MAC over the canonical re-encoding of the decoded header and payload verifies
 	Alg       string
 	Canonical bool // every segment is canonical base64url (re-encoding gives the same text)
 }
@@ -107,5 +108,7 @@ func InspectJWS(tok string, key []byte) (JWSInfo, error) {
 	}
 	want := hmacOf("HS256", key, []byte(segs[0]+"."+segs[1]))
 	info.MACOK = info.Alg == "HS256" && hmac.Equal(want, dec[2])
+	wantCanon := hmacOf("HS256", key, []byte(B64(dec[0])+"."+B64(dec[1])))
+	info.MACCanon = info.Alg == "HS256" && hmac.Equal(wantCanon, dec[2])
 	return info, nil
 }
